@@ -181,8 +181,9 @@ impl Prop for C01 {
             if n % 60 == 0 {
                 db = FrontCfg::default_cfg().new_db(Plugins::Default);
             }
-            let case = gen_case(ch, 8);
+            // Configuration choices first: the program generator may exhaust the choice sequence.
             let cfg_b = FrontCfg::generate(ch);
+            let case = gen_case(ch, 8);
             let expected: Vec<Outcome> = case.args.iter().map(|a| Interp::new(&case.program).run_entry(a)).collect();
             let rargs: Vec<Vec<Arg>> = case.args.iter().map(|a| to_args(&case.program, a)).collect();
             let name = format!("p{}", hash_str(&case.source) % 1_000_000);
